@@ -89,6 +89,12 @@ for iters in (2, 6, 10):
         #  mismatch and the job would be inconclusive)
         thorough.append(job("c11.mtenet", secs=300, qto=1000, allow=AL, n=3, p=2, icpt=0, centred=0, pen=pen, l1=l1, iters=iters, ob=GAP_SIGN | FINITE, div=5))
 
+# multi-task, two ORTHOGONAL feature columns (sum_i x_i0*x_i1 = 0), no intercept: one sweep is exact for every row, so the
+# returned point must satisfy the group-lasso KKT conditions in every row of W (a per-row scaling taken from the wrong
+# column - seeded change S105 - only shows with two features of different norms)
+quick.append(job("c11.mtenet", secs=60, qto=400, allow=AL, n=3, p=2, icpt=0, centred=0, pen=2, l1=2, iters=4, orth=1, ob=KKT_W | GAP_SIGN | FINITE, div=3))
+thorough.append(job("c11.mtenet", secs=60, qto=400, allow=AL, n=3, p=2, icpt=0, centred=0, pen=2, l1=2, iters=4, orth=1, ob=KKT_W | GAP_SIGN | FINITE, div=3))
+
 # multi-task jobs with two features multiply 2-D arrays (X^T R): for f64 ndarray calls matrixmultiply's FMA kernels, for
 # any other scalar plain loops; outputs agree to rounding only, so the witness validation compares them to 1e-9 relative
 for _j in quick + thorough:
